@@ -26,7 +26,7 @@ pub enum Entry {
 static LOG: Mutex<Vec<Entry>> = Mutex::new(Vec::new());
 
 fn schedule_hook(p: Point) {
-    if !ACTIVE.load(Ordering::Relaxed) || std::thread::panicking() {
+    if !ACTIVE.load(Ordering::Relaxed) || current_task().is_none() {
         return;
     }
     match p {
@@ -35,12 +35,21 @@ fn schedule_hook(p: Point) {
     }
 }
 
+/// The running shuttle task, if this code runs inside an intact execution (not while an execution
+/// is being torn down after a panic or a diverged replay).
+fn current_task() -> Option<usize> {
+    if std::thread::panicking() {
+        return None;
+    }
+    shuttle_engine::runtime::execution::ExecutionState::try_with(|s| s.try_current().map(|t| usize::from(t.id()))).ok().flatten()
+}
+
 fn event_hook(ev: Event) {
     if !ACTIVE.load(Ordering::Relaxed) {
         return;
     }
-    let task = usize::from(shuttle::current::me());
-    let mut g = LOG.lock().unwrap();
+    let Some(task) = current_task() else { return };
+    let mut g = LOG.lock().unwrap_or_else(|e| e.into_inner());
     if g.len() < 100_000 {
         g.push(Entry::Sync { task, ev });
     }
@@ -299,6 +308,28 @@ pub fn replay<P: Program>(schedule: &[u32], program: Arc<P>) -> Outcome {
     let mut rs = ReplayScheduler::new_from_schedule(sched);
     rs.set_allow_incomplete();
     drive(rs, program, Some(u64::MAX))
+}
+
+/// Set when a replay could not follow its recorded schedule (or a Miri replay gave no verdict).
+pub static REPLAY_INCONCLUSIVE: AtomicBool = AtomicBool::new(false);
+
+/// End of a `--replay` run: a replay that could not be followed is inconclusive (exit 2), never "held".
+pub fn finish_replay(report: &vcore::Report, input: &Value, r: Result<(), Fail>) -> ! {
+    match r {
+        Err(f) => {
+            report.case(Some(&input.to_string()), &["replay"]);
+            report.case(Some("replay-marker"), &[]);
+            report.violation("replay", &f, input.clone());
+        }
+        Ok(()) if REPLAY_INCONCLUSIVE.load(Ordering::SeqCst) => {
+            vcore::inconclusive("the replay could not be followed: the recorded schedule does not fit the code under test any more (its sequence of synchronisation operations changed), or the Miri run gave no verdict");
+        }
+        Ok(()) => {
+            report.case(Some(&input.to_string()), &["replay"]);
+            report.case(Some("replay-marker"), &[]);
+        }
+    }
+    report.finish()
 }
 
 pub fn failure_json(f: &Failure, engine: &str) -> Value {
